@@ -22,11 +22,16 @@ structure TablesOk (T : Tables) : Prop where
   branchCopies : T.branchCopies = true
   fallChecked : T.fallThroughChecked = true
   testsBool : T.testsBoolean = true
+  chainAll : T.chainAssignAll = true
+  unpackRefused : T.unpackRefused = true
+  importsStrict : T.importsStrict = true
+  importsCopied : T.importsCopied = true
+  sigStrict : T.sigStrict = true
 
 /-- the symbol context describes the Python environment: every bound local's symbolic value evaluates
 (at the argument valuation `ρ`) to its current Python value -/
 def Agree (ctx : Syms) (env : PyEnv) (ρ : SEnv) : Prop :=
-  ∀ n v, List.lookup n env = some v → ∃ s, List.lookup n ctx = some s ∧ evalS ρ s = some v
+  ∀ n v, List.lookup n env = some v → (∃ g, v = .obj g) ∨ ∃ s, List.lookup n ctx = some s ∧ evalS ρ s = some v
 
 def DomL (ctx : Syms) (L : List String) : Prop := ∀ n s, List.lookup n ctx = some s → L.contains n = true
 
@@ -39,7 +44,7 @@ theorem Agree.cons {ctx env ρ} (h : Agree ctx env ρ) (x : String) (s : SExpr) 
   by_cases hx : n = x
   · simp only [hx, ↓reduceIte] at hn ⊢
     cases hn
-    exact ⟨s, rfl, hs⟩
+    exact Or.inr ⟨s, rfl, hs⟩
   · simp only [hx, ↓reduceIte] at hn ⊢
     exact h n w hn
 
@@ -128,6 +133,7 @@ theorem cmpChain_sound_acc {T : Tables} (hT : TablesOk T) (ρ : SEnv) (ev : PyEx
         rw [hr] at hf
         cases yv with
         | bool _ => simp at hf
+        | obj _ => simp at hf
         | num y =>
           simp only at hf
           have hs : evalS ρ s = some (.num y) := hrs _ hr
@@ -204,6 +210,7 @@ theorem cmp_sound {T : Tables} (hT : TablesOk T) (ρ : SEnv) (ev : PyExpr → Op
           rw [hr] at hf
           cases yv with
           | bool _ => simp at hf
+          | obj _ => simp at hf
           | num y =>
             simp only at hf
             have hs : evalS ρ s = some (.num y) := hrs _ hr
@@ -361,6 +368,9 @@ theorem allAssign_of_assignOnly : ∀ b : List PyStmt, assignOnly b = true → a
   | .retNone :: _, h => by simp [assignOnly] at h
   | .skip :: _, h => by simp [assignOnly] at h
   | .unhandled :: _, h => by simp [assignOnly] at h
+  | .multiAssign _ _ :: _, h => by simp [assignOnly] at h
+  | .unpackAssign _ _ :: _, h => by simp [assignOnly] at h
+  | .importS _ :: _, h => by simp [assignOnly] at h
 
 theorem lastAssigned_mem : ∀ (b : List PyStmt) (x : String), lastAssigned b = some x → x ∈ bodyAssigned b
   | [], x, h => by simp [lastAssigned] at h
@@ -375,8 +385,12 @@ theorem lastAssigned_mem : ∀ (b : List PyStmt) (x : String), lastAssigned b = 
       exact List.mem_append_right _ (lastAssigned_mem rest y hr)
     | none =>
       rw [hr] at h
-      cases s <;> simp at h
-      subst h
-      simp [stmtAssigned]
+      cases s with
+      | assign y e => simp at h; subst h; simp [stmtAssigned]
+      | multiAssign xs e =>
+        cases xs with
+        | nil => simp at h
+        | cons y ys => simp at h; subst h; simp [stmtAssigned]
+      | _ => simp at h
 
 end Mxl.C06
